@@ -725,3 +725,7 @@ CASES["C12"] += [
 CASES["C12"] += [
     ("reintroduce F-34 (copy-in in front of the first reader)", "mutant", "snaxc/transforms/realize_memref_casts.py", "@revert:e5bf6a4~1", "", ["C12.copy-in"]),
 ]
+
+CASES["C12"] += [
+    ("reintroduce F-35 (round-trip chain replaced by the intermediate)", "mutant", "snaxc/transforms/realize_memref_casts.py", "@revert:bb82659~1", "", ["C12.chain"]),
+]
